@@ -109,13 +109,23 @@ impl FragmentedMessage {
 
         if let Some(count) = self.total_fragments {
             if fragment_id <= count.get() {
-                let idx = (fragment_id - 1) as usize;
-                if idx < self.fragments.len() {
-                    if self.fragments[idx].is_some() {
-                        trace!("Received duplicate fragment {} - ignoring", fragment_id);
-                    } else {
-                        self.fragments[idx] = Some(data);
+                if count.exceeds_vec_limit() {
+                    // No slot vector for a count this large: the fragments stay in the pending map
+                    if let Entry::Vacant(e) = self.pending_fragments.entry(fragment_id) {
+                        e.insert(data);
                         self.received_count += 1;
+                    } else {
+                        trace!("Received duplicate fragment {} - ignoring", fragment_id);
+                    }
+                } else {
+                    let idx = (fragment_id - 1) as usize;
+                    if idx < self.fragments.len() {
+                        if self.fragments[idx].is_some() {
+                            trace!("Received duplicate fragment {} - ignoring", fragment_id);
+                        } else {
+                            self.fragments[idx] = Some(data);
+                            self.received_count += 1;
+                        }
                     }
                 }
             }
@@ -133,7 +143,13 @@ impl FragmentedMessage {
         if self.total_fragments.as_ref() != Some(&count) {
             self.total_fragments = Some(count);
 
-            if !count.exceeds_vec_limit() {
+            if count.exceeds_vec_limit() {
+                // The fragments buffered before the header stay in the pending map;
+                // those that belong to the sequence count as received
+                self.pending_fragments
+                    .retain(|fragment_id, _| *fragment_id <= count.get());
+                self.received_count = self.pending_fragments.len();
+            } else {
                 self.fragments.resize(count.get() as usize, None);
 
                 let pending: Vec<_> = self.pending_fragments.drain().collect();
@@ -171,7 +187,8 @@ impl FragmentedMessage {
             .iter()
             .filter_map(|f| f.as_ref().map(|v| v.len()))
             .sum();
-        let total_size = cache_size + fragments_size;
+        let pending_size: usize = self.pending_fragments.values().map(|v| v.len()).sum();
+        let total_size = cache_size + fragments_size + pending_size;
 
         let mut result = Vec::with_capacity(total_size);
 
@@ -179,8 +196,17 @@ impl FragmentedMessage {
             result.extend_from_slice(&cache_data);
         }
 
-        for fragment in self.fragments.into_iter().flatten() {
-            result.extend_from_slice(&fragment);
+        if let Some(count) = self.total_fragments.filter(|c| c.exceeds_vec_limit()) {
+            // Same order as the slot vector: by fragment id
+            for fragment_id in 1..=count.get() {
+                if let Some(fragment) = self.pending_fragments.remove(&fragment_id) {
+                    result.extend_from_slice(&fragment);
+                }
+            }
+        } else {
+            for fragment in self.fragments.into_iter().flatten() {
+                result.extend_from_slice(&fragment);
+            }
         }
 
         Some(result)
